@@ -116,6 +116,33 @@ pub(crate) fn remove_or_compress_too_old_logfiles_impl(
     // newest first, irrespective of being compressed or not
     let mut files = list_of_log_and_compressed_files(file_spec, infix_filter);
     files.sort_unstable_by_key(|path| file_spec.sort_key(path));
+    if let InfixFilter::Timstmps(infix_format) = infix_filter {
+        // the order of the names is only the chronological order if the format of the
+        // timestamp infix is "sortable" (which e.g. "%d-%m-%Y" is not)
+        files.sort_by_key(|path| {
+            let file_name = path
+                .file_name()
+                .map(|s| s.to_string_lossy().to_string())
+                .unwrap_or_default();
+            let mut infix: &str = &file_name;
+            infix = infix.strip_suffix(".gz").unwrap_or(infix);
+            if let Some(suffix) = file_spec.get_suffix() {
+                infix = infix
+                    .strip_suffix(suffix.as_str())
+                    .and_then(|s| s.strip_suffix('.'))
+                    .unwrap_or(infix);
+            }
+            let fixed_name_part = file_spec.fixed_name_part();
+            if !fixed_name_part.is_empty() {
+                infix = infix
+                    .strip_prefix(fixed_name_part.as_str())
+                    .and_then(|s| s.strip_prefix('_'))
+                    .unwrap_or(infix);
+            }
+            let infix = infix.split(".restart-").next().unwrap_or(infix);
+            super::timestamp_from_ts_infix(infix, infix_format).ok()
+        });
+    }
     files.reverse();
 
     // a compressed file whose original still exists stems from an interrupted compression:
